@@ -301,7 +301,7 @@ class C08(Prop):
     def canaries(self, ctx):
         from vcore.links_lex import table_canary, edit_pattern, edit_move_before
         return [table_canary("greedy-comment-end", edit_pattern("BlockComment", "BLOCK_COMMENT_END", ".*?", ".*"), r"lex:comment~.*END"),
-                table_canary("inline-comment-eats-newline", edit_pattern("ExperimentLexer", "inline_comment", ".*", r"[^\"]*"), r"lex:main~.*(inline_comment|line-comment)"),
+                table_canary("empty-line-comment-unsupported", edit_pattern("ExperimentLexer", "inline_comment", ".*", ".+"), r"lex:main~.*(inline_comment|line-comment)"),
                 table_canary("ws-before-newline-rule-removed", edit_pattern("ExperimentLexer", "ws", r"\s+", r"\n+"), r"lex:main~.*(whitespace.covered|error)")]
 
 
